@@ -306,6 +306,28 @@ def run(ck, F):
                                           f"{label} member: Field.xml_name = {xn[:90]}" + ("" if ok_x else " — not the declared/ referenced XML name"), fn="Field::try_from_node")
         (ck.ok if ok_t else ck.violation)("R1", f"Field.target_namespace:{label}", site,
                                           f"{label} member: Field.target_namespace = {tn[:90]}" + ("" if ok_t else " — not the declaring schema's / referenced element's namespace"), fn="Field::try_from_node")
+    # one `#[yaserde(..)]` attribute per item: yaserde_derive reads the first attribute of a member / struct and ignores the others
+    # without a warning, so a second attribute line in front of one item silently switches the options of the other off
+    from rules import c01 as C01
+    try:
+        stream = [e for e in T.inline(X, T.ROOT) if e.kind == "emit"]
+    except og.Unrecognised:
+        stream = []
+    n_attr = 0
+    for i, ev in enumerate(stream):
+        if not re.match(r"^\s*#\[yaserde\(", ev.skeleton()):
+            continue
+        n_attr += 1
+        nxt, _end = C01.followers_of(stream, i)
+        twice = next((E for E in nxt if re.match(r"^\s*#\[yaserde\(", E.skeleton())), None)
+        if twice is not None:
+            ck.violation("R1", f"two-attributes:{ev.fn.rsplit('::', 1)[-1]}", ev.site,
+                         f"the `#[yaserde(..)]` line written here can be followed directly by another one ({twice.site}): the item then carries two "
+                         f"yaserde attributes, of which the derive reads only the first — the prefix / rename / attribute options of the other are ignored")
+    if n_attr:
+        if not any(o["status"] == "violated" and "two-attributes" in o["key"] for o in ck.obligations):
+            ck.ok("R1", "one-attribute-per-item", "-", f"none of the {n_attr} `#[yaserde(..)]` templates can be followed by another one")
+    ck.floor("R1", "yaserde attribute templates in the output grammar", n_attr, 6)
     # ---- R2 / R3 per struct group
     n_groups = 0
     for fn in T.struct_emitters(X):
